@@ -607,6 +607,8 @@ def make_data(rng, log):
         "i0": rng.choice(INT_POOL), "i1": rng.choice(INT_POOL),
         "s0": rng.choice(STR_POOL), "s1": rng.choice(STR_POOL),
         "m0": Markup(rng.choice(["<i>", "m", "a&amp;"])),
+        # keys that are str SUBCLASS instances / plain strings naming attributes and items of the probe objects
+        "mk0": Markup(rng.choice(ATTR_NAMES)), "sk0": rng.choice(ATTR_NAMES),
         "b0": rng.choice([True, False]), "n0": None,
         "l0": rng.choice([[1, 2, 3], [], [0, "a"], ["<", Markup("<b>")]]), "l1": rng.choice([["a", "b"], [2, 1], [[1], 2]]),
         "t0": rng.choice([(1, 2), (), ("a",)]),
@@ -766,7 +768,13 @@ class EGen:
         if k == 0:
             return (".", base, name)
         if k == 1:
-            return ("[]", base, ("C", name))
+            # the subscript key as a literal, a variable (plain str / Markup), or a computed str-subclass value
+            kk = r.randint(0, 6)
+            key = (("C", name) if kk <= 1 else ("N", "mk0") if kk == 2 else ("N", "sk0") if kk == 3
+                   else ("F", ("C", name), r.choice(["safe", "e", "escape"]), []) if kk == 4
+                   else ("~", [("C", ""), ("F", ("C", name), "safe", [])]) if kk == 5
+                   else ("F", ("C", name), "string", []))
+            return ("[]", base, key)
         if k == 2:
             return ("[]", base, ("C", r.choice([0, 1, 5])))
         return (".", (".", base, "b"), name)
